@@ -219,9 +219,11 @@ func runC02(p *core.Program, r *core.Report) {
 			if o.Path == "*node" || o.Slot == "<whole>" {
 				continue // the whole matched node wrapped (not …): nothing about its operands changes
 			}
-			if strings.Count(o.Path, ".") != 1 {
+			if strings.Count(o.Path, ".") < 1 {
 				continue
 			}
+			// (a grandchild lifted into a new node — `not (a < b)` rebuilt as `a >= b` — is a
+			// surviving operand under a replaced operator just the same)
 			done[o.Path] = true
 			key := s.Key + "/guard on the static type of " + o.Path
 			adm, np := admitted(p, s, o.Path)
@@ -287,8 +289,9 @@ func runC02(p *core.Program, r *core.Report) {
 	c02Pipeline(p, r)
 	c02RangeShape(p, r, nk, sites)
 	rangeBuilderRule(p, r)
+	loopAliasRule(p, r, "R2.11", "optimizer")
 	r.Floor("R2.1", 3)
-	r.Floor("R2.2", 7) // 9 fold sites today
+	r.Floor("R2.2", 7)    // 9 fold sites today
 	r.Floor("R2.3", 14*2) // two obligations per rewrite site (18 today); sites may be merged
 	r.Floor("R2.4", 3)
 	r.Floor("R2.5", 3)
